@@ -40,7 +40,11 @@ Clauses(s, ev) ==
                   ELSE <<>>)
             ELSE IF LateNow(s) THEN <<F("recycle-late", Ctx(s))>> ELSE <<>>
       [] ev.e \in {"quiescent", "winddown", "final", "serve_done"} ->
-            IF LateNow(s) /\ ~s.ended THEN <<F("recycle-late", Ctx(s))>> ELSE <<>>
+            (IF LateNow(s) /\ ~s.ended THEN <<F("recycle-late", Ctx(s))>> ELSE <<>>)
+            \* ... and the exit that began has to happen: the request count was crossed, yet when every timeout
+            \* of the wind-down has run out the worker is still serving
+            \o (IF ev.e = "final" /\ s.trig /\ s.maxReq >= 0 /\ ~s.ended
+                THEN <<F("recycle-late", Ctx(s) \o "/exit-announced-but-never-made")>> ELSE <<>>)
       [] OTHER -> <<>>
 
 Step(s, ev) ==
